@@ -250,9 +250,11 @@ func (h *c28H) join(ch chan c28Call, what string) (c28Call, bool) {
 	}
 }
 
+var c28StackBuf = make([]byte, 1<<18)
+
+// c28Stacks dumps all goroutines (only ever called from the orchestrating goroutine).
 func c28Stacks() []byte {
-	buf := make([]byte, 1<<18)
-	return buf[:runtime.Stack(buf, true)]
+	return c28StackBuf[:runtime.Stack(c28StackBuf, true)]
 }
 
 // waitParked waits until the reader goroutine is inside a subscription
